@@ -93,6 +93,21 @@ Theorem C18_pow2_row_ok : forall r prss e eb es esec b,
 Proof. exact pow2_row_ok. Qed.
 Print Assumptions C18_pow2_row_ok.
 
+(** Opening a local product of two degree-t sharings with threshold 2t WITHOUT a fresh zero sharing: exhaustive
+    count over GF(11), m = 3, t = 1, view of one party: two nonzero secrets have almost disjoint views. *)
+Theorem C18_unrerandomised_product_leaks_refuted :
+  List.length (toy_views 1) = 1210%nat /\
+  (forall a', In a' (zrange 2 9) -> overlap 1 a' = 110%nat) /\
+  exists v, In v (toy_views 1) /\ reachable v (toy_views 2) = false.
+Proof. exact unrerandomised_product_leaks_refuted. Qed.
+Print Assumptions C18_unrerandomised_product_leaks_refuted.
+
+(** ... and WITH a uniform degree-2 zero sharing the opened polynomial is uniform given its constant term. *)
+Theorem C18_rerandomised_product_uniform :
+  forall h1 h2 y1 y2, In h1 Fp -> In h2 Fp -> In y1 Fp -> In y2 Fp -> zero_sharing_count h1 h2 y1 y2 = 1%nat.
+Proof. exact rerandomised_product_uniform. Qed.
+Print Assumptions C18_rerandomised_product_uniform.
+
 (** Non-vacuity. *)
 Example C18_sd_shift_nonvacuous : sd_num 10 13 8 = 3 /\ sd_num 10 30 8 = 8 /\ sd_num 13 10 8 = 3.
 Proof. vm_compute. auto. Qed.
